@@ -167,6 +167,7 @@ func C03(c *Ctx) {
 	R2GuardRead(c, "C03")
 	R2Identity(c)
 	R2NameIDFormat(c)
+	R14Callbacks(c)
 	R8IDWidth(c)
 }
 
